@@ -145,3 +145,56 @@ def write_evidence(prop, ev):
     with open(tmp, "w") as f:
         json.dump(jsonable(ev), f, indent=1, sort_keys=True)
     os.replace(tmp, os.path.join(d, f"{prop}.json"))
+
+
+def merge_ctx(ctx, parts):
+    """Merge the picklable summaries returned by worker processes (see ctx_summary) into ctx."""
+    for s in parts:
+        ctx.evaluations += s["evaluations"]
+        ctx._distinct |= s["distinct"]
+        for x in s["samples"]:
+            if len(ctx.samples) < 12:
+                ctx.samples.append(x)
+        for v in s["violations"]:
+            if len(ctx.violations) < 50:
+                ctx.violations.append(Violation(*v))
+        for k, v in s["known_hits"].items():
+            ctx.known_hits.setdefault(k, v)
+        for k, v in s["counters"].items():
+            ctx.counters[k] = ctx.counters.get(k, 0) + v
+        for k, v in s["contract_evals"].items():
+            ctx.contract_evals[k] = ctx.contract_evals.get(k, 0) + v
+        for r in s["rules"]:
+            ctx.rule(r)
+        for a in s["assumptions"]:
+            ctx.assume(a)
+
+
+def ctx_summary(ctx):
+    return dict(evaluations=ctx.evaluations, distinct=ctx._distinct, samples=ctx.samples[:4],
+                violations=[(v.prop, v.function, v.clause, v.input, v.expected, v.observed, v.key, v.replay) for v in ctx.violations],
+                known_hits=ctx.known_hits, counters=ctx.counters, contract_evals=ctx.contract_evals,
+                rules=ctx.rules, assumptions=ctx.assumptions)
+
+
+def parallel_map(ctx, worker, chunks, jobs=None):
+    """Run worker(sub_ctx, chunk) in forked processes; deterministic merge in chunk order."""
+    import multiprocessing as mp
+    jobs = jobs or min(16, os.cpu_count() or 4)
+    if len(chunks) <= 1 or jobs <= 1:
+        for i, ch in enumerate(chunks):
+            sub = Ctx(ctx.prop, ctx.tier, ctx.seed + i)
+            worker(sub, ch)
+            merge_ctx(ctx, [ctx_summary(sub)])
+        return
+    mpc = mp.get_context("fork")
+    with mpc.Pool(jobs) as pool:
+        parts = pool.map(_run_chunk, [(worker, ctx.prop, ctx.tier, ctx.seed + i, ch) for i, ch in enumerate(chunks)])
+    merge_ctx(ctx, parts)
+
+
+def _run_chunk(args):
+    worker, prop, tier, seed, ch = args
+    sub = Ctx(prop, tier, seed)
+    worker(sub, ch)
+    return ctx_summary(sub)
